@@ -11,6 +11,7 @@ func init() {
 		Assumptions: []string{"the constructors interpret (letters, pairing s, pairing c, gap, caseSensitive) positionally as their parameter names say"},
 		Run: func(c *Ctx) {
 			c.guard("tables/alphabet", func() { ruleAlphabets(c) })
+			c.guard("tablefill", func() { ruleTableFill(c, "tablefill", "newAlphabet", "NewPairing"); c.floor("tablefill", 2) })
 			c.guard("bijection", func() { ruleBijection(c, "bijection"); c.floor("bijection", 2) })
 			c.guard("casefold", func() { ruleCaseFold(c, "casefold"); c.floor("casefold", 2) })
 		},
@@ -31,6 +32,7 @@ func init() {
 		Assumptions: []string{"runtime index panics other than on split-field vectors are out of scope", "a converter re-panics exactly non-error and runtime.Error values (checked structurally)"},
 		Run: func(c *Ctx) {
 			c.guard("guardidx", func() { ruleGuardIdx(c, "guardidx", "io/featio/bed", "io/featio/gff"); c.floor("guardidx", 50) })
+			c.guard("taintsize", func() { ruleTaintSize(c, "taintsize", "io/featio/bed", "io/featio/gff"); c.floor("taintsize", 1) })
 			c.guard("lencheck", func() { ruleLenCheck(c, "lencheck"); c.floor("lencheck", 1) })
 			c.guard("lineio/eofhang", func() { ruleEOFPaths(c, "lineio/eofhang", "", "io/featio/bed", "io/featio/gff"); c.floor("lineio/eofhang", 3) })
 			c.guard("panicval", func() {
@@ -51,7 +53,7 @@ func init() {
 			seqs := []string{"io/seqio/fasta", "io/seqio/fastq"}
 			c.guard("lineio/eofdata", func() { ruleDataOnEOF(c, "lineio/eofdata", feat...); c.floor("lineio/eofdata", 3) })
 			c.guard("lineio/normalise", func() { ruleNormalise(c, "lineio/normalise", feat...); c.floor("lineio/normalise", 3) })
-			c.guard("lineio/fragments", func() { ruleFragments(c, "lineio/fragments", seqs...); c.floor("lineio/fragments", 8) })
+			c.guard("lineio/fragments", func() { ruleFragments(c, "lineio/fragments", seqs...); c.floor("lineio/fragments", 10) })
 			c.guard("lineio/eofdata", func() { ruleDataOnEOF(c, "lineio/eofdata", seqs...) })
 			c.guard("bufalias", func() { ruleBufAlias(c, "bufalias", append(append([]string{}, feat...), seqs...)...); c.floor("bufalias", 4) })
 			c.guard("lineio/eofclean", func() { ruleEOFPaths(c, "", "lineio/eofclean", feat...); c.floor("lineio/eofclean", 3) })
@@ -65,9 +67,10 @@ func init() {
 		Run: func(c *Ctx) {
 			seqs := []string{"io/seqio/fasta", "io/seqio/fastq"}
 			c.guard("bytecount", func() { ruleByteCount(c, "bytecount", seqs...); c.floor("bytecount", 14) })
-			c.guard("lineio/fragments", func() { ruleFragments(c, "lineio/fragments", seqs...); c.floor("lineio/fragments", 8) })
+			c.guard("lineio/fragments", func() { ruleFragments(c, "lineio/fragments", seqs...); c.floor("lineio/fragments", 10) })
 			c.guard("tables/markers", func() { ruleMarkers(c); c.floor("tables/markers", 5) })
 			c.guard("tables/quality", func() { ruleQuality(c) })
+			c.guard("directsink", func() { ruleDirectSink(c, "directsink", seqs...); c.floor("directsink", 2) })
 			c.guard("prefixstrip", func() { rulePrefixStrip(c, "prefixstrip", seqs...); c.floor("prefixstrip", 2) })
 		},
 	})
@@ -79,6 +82,7 @@ func init() {
 		Run: func(c *Ctx) {
 			c.guard("convpair", func() { ruleConvPair(c, "convpair"); c.floor("convpair", 12) })
 			c.guard("bufalias", func() { ruleBufAlias(c, "bufalias", "io/featio/bed", "io/featio/gff"); c.floor("bufalias", 2) })
+			c.guard("directsink", func() { ruleDirectSink(c, "directsink", "io/featio/bed", "io/featio/gff"); c.floor("directsink", 2) })
 			c.guard("zerocolour", func() { ruleZeroColour(c, "zerocolour"); c.floor("zerocolour", 1) })
 			c.guard("bytecount", func() { ruleByteCount(c, "bytecount", "io/featio/bed", "io/featio/gff"); c.floor("bytecount", 28) })
 		},
@@ -101,6 +105,10 @@ func init() {
 				}
 				c.floor("fresh/clonedeep", 9)
 			})
+			c.guard("qtravel", func() {
+				ruleQTravel(c, "qtravel", [][2]string{{"seq/linear", "(*QSeq).RevComp"}, {"seq/linear", "(*QSeq).Reverse"}, {"seq/alignment", "(*QSeq).RevComp"}, {"seq/alignment", "(*QSeq).Reverse"}})
+				c.floor("qtravel", 4)
+			})
 			c.guard("loopdep", func() {
 				ruleLoopDep(c, "loopdep", "seq/multi", "(*Multi).RevComp", "SetOffset")
 				ruleLoopDep(c, "loopdep", "seq/multi", "(*Multi).Reverse", "SetOffset")
@@ -116,6 +124,10 @@ func init() {
 		Run: func(c *Ctx) {
 			c.guard("fresh/freshdst", func() { ruleFreshDst(c, "fresh/freshdst", "Join", "Truncate", "Stitch", "Compose"); c.floor("fresh/freshdst", 7) })
 			c.guard("mustpass", func() { ruleScratchReverse(c, "mustpass"); c.floor("mustpass", 1) })
+			c.guard("qtravel", func() {
+				ruleQTravel(c, "qtravel", [][2]string{{"seq/linear", "(*QSeq).RevComp"}, {"seq/linear", "(*QSeq).Reverse"}, {"seq/alignment", "(*QSeq).RevComp"}, {"seq/alignment", "(*QSeq).Reverse"}})
+				c.floor("qtravel", 4)
+			})
 			c.guard("runningend", func() { ruleRunningEnd(c, "runningend"); c.floor("runningend", 1) })
 		},
 	})
@@ -191,6 +203,8 @@ func init() {
 				ruleLIVGuard(c, "livguard", srcFuncs(c.SPkgs[p.PkgPath]))
 				c.floor("livguard", 4)
 			})
+			// the k-mer scanner trusts the alphabet's index table to be negative for every non-letter byte
+			c.guard("tablefill", func() { ruleTableFill(c, "tablefill", "newAlphabet"); c.floor("tablefill", 1) })
 			c.guard("maskguard", func() { ruleMaskGuard(c, "maskguard"); c.floor("maskguard", 2) })
 			c.guard("watermark", func() { ruleWatermark(c, "watermark", c.fn("index/kmerindex", "(*Index).ForEachKmerOf")); c.floor("watermark", 2) })
 		},
